@@ -81,7 +81,7 @@ CLAIMS.update({
             "provenance, PAR on the parallel callables and the pool, structure of the mesh filter (both per-cell loops cover all vertices), "
             "base64 length of appended blocks = 4*ceil(n/3) (proof over residues), zlib block structure ceil(n/b) blocks / last block 1..b (residues), the `no feature` guard of the tag scan can fire, Cartesian grid: node positions and VTK cell "
             "connectivity as closed forms of the loop indices; sphere grid: bilinear block patch (partition of unity, corners, edges) and "
-            "projection R*p/|p|, every layer from a fresh copy of the unit shell at radius inner + (outer-inner) i/n; per-tag files from a one-hot mask that is fresh in every iteration; the bound checks of the chunk grid imply |latitude| <= 90 and span <= 360 degrees and none is vacuous (GRID.bounds, linear program); chunk grid: (lon, lat, r) lattice, conversion to Cartesian coordinates and connectivity; annulus grid: node circles and "
+            "projection R*p/|p|, every layer from a fresh copy of the unit shell at radius inner + (outer-inner) i/n; per-tag files from a one-hot mask that is fresh in every iteration; the bound checks of the chunk grid imply |latitude| <= 90 and span <= 360 degrees and none is vacuous (GRID.bounds, linear program), chunk, annulus and sphere all refuse inner >= outer radius (GRID.radii); chunk grid: (lon, lat, r) lattice, conversion to Cartesian coordinates and connectivity; annulus grid: node circles and "
             "quads with the wrap-around column. The uncompressed numbering and the merging of sphere blocks are decided only for their depth field",
             "§3.2, §3.11, §4 C18"),
 })
